@@ -398,6 +398,104 @@ Proof.
     + rewrite Hidx. eapply Permutation_trans; [|exact Hp]. cbn [app]. apply Permutation_middle.
 Qed.
 
+(* ---- a value is replaced by one that needs another number of slots ---- *)
+Lemma linkedp_hd d a l : linkedp d a l -> exists r, l = a :: r.
+Proof. intros H. destruct H; eexists; reflexivity. Qed.
+
+Lemma linkedp_cut d h : forall p1 a q p2, q <> 0 -> linkedp d a (p1 ++ q :: p2) -> p2 <> [] -> NoDup (p1 ++ q :: p2) ->
+  linkedp (upd_slots d h q RSize) a (p1 ++ [q]) /\ linkedp (upd_slots d h q RSize) (hd 0 p2) p2.
+Proof.
+  induction p1 as [|x p1 IH]; intros a q p2 Hq Hl Hne Hnd; cbn [app] in *.
+  - inversion Hl as [j Hs E|j nx l Hs Hl' E]; subst; [contradiction Hne; reflexivity|].
+    apply NoDup_cons_iff in Hnd as [Hq2 _]. split.
+    + apply lp_last. eapply slot_at_upd_eq. exact Hs.
+    + destruct (linkedp_hd _ _ _ Hl') as [r Er]. rewrite Er. cbn [hd]. rewrite <- Er. apply linkedp_upd; assumption.
+  - inversion Hl as [j Hs E|j nx l Hs Hl' E]; subst; [destruct p1; discriminate|].
+    apply NoDup_cons_iff in Hnd as [Hx Hnd]. destruct (IH nx q p2 Hq Hl' Hne Hnd) as [H1 H2]. split; [|exact H2].
+    eapply lp_part; [|exact H1]. rewrite slot_at_upd_neq; [exact Hs|exact Hq|]. intros ->. apply Hx. apply in_or_app. right. left. reflexivity.
+Qed.
+
+Lemma head_not_target d fl cs i nx : Forall (chain_wf d) cs -> linkedf d (free_head d) fl -> Permutation (fl ++ concat cs) (indices d) ->
+  slot_at d i = Some (RHead nx) -> ~ In i (targets d).
+Proof.
+  intros Hcs Hfl Hp Hs Hin. apply memN_in in Hin. destruct (target_is_part d cs fl i Hcs Hfl Hp Hin) as [H|[n2 H]]; rewrite Hs in H; discriminate.
+Qed.
+
+Lemma areplace_inv d fl c cs k : TInvP d fl (c :: cs) ->
+  let '(d', c') := areplace d c k in exists fl', TInvP d' fl' (c' :: cs).
+Proof.
+  intros HP. unfold areplace. destruct (Nat.leb_spec (length c) (S k)) as [Hle|Hgt].
+  - (* the value keeps its slots and may take more *)
+    pose proof (alloc_nP (S k - length c) d fl (c :: cs) HP) as Ha. destruct (alloc_n (S k - length c) d) as [d1 extra].
+    destruct Ha as [fl' [HP1 _]]. destruct extra as [|e extra].
+    + exists fl'. exact HP1.
+    + assert (Hcne : c <> []).
+      { destruct HP as [_ [_ [Hcs _]]]. inversion Hcs as [|? ? Hc _]; subst. destruct Hc as [[i [-> _]]|[i [nx [ps [-> _]]]]]; discriminate. }
+      destruct c as [|i [|i2 c2]]; [contradiction Hcne; reflexivity| |].
+      * exists fl'. apply link_chainP. eapply tinvp_perm; [|exact HP1].
+        change (singles (i :: e :: extra) ++ cs) with ([i] :: (singles (e :: extra) ++ cs)). apply Permutation_sym. apply Permutation_middle.
+      * set (c := i :: i2 :: c2) in *. exists fl'.
+        assert (Ec : c = removelast c ++ [last c 0]) by (apply app_removelast_last; discriminate).
+        rewrite Ec at 2. rewrite <- app_assoc. cbn [app]. apply link_partsP; [unfold c; cbn; discriminate|].
+        rewrite <- Ec. eapply tinvp_perm; [|exact HP1]. apply Permutation_sym. apply Permutation_middle.
+  - (* the value ends in slot k+1 of its chain; the rest of the chain is cleared *)
+    pose proof (tinvp_nodup _ _ _ HP) as Hnd. destruct HP as [Hf [Hfl [Hcs Hp]]]. inversion Hcs as [|c0 l0 Hc Hcs1]; subst.
+    destruct Hc as [[i [-> _]]|[i [nx [ps [-> [Hs Hl]]]]]]; [cbn in Hgt; lia|].
+    cbn [length] in Hgt. cbn [firstn skipn]. cbn [concat] in Hnd, Hp.
+    remember (firstn k ps) as keepp eqn:Ekp. remember (skipn k ps) as dropp eqn:Edp.
+    assert (Eps : ps = keepp ++ dropp) by (subst keepp dropp; symmetry; apply firstn_skipn).
+    assert (Hdrop : dropp <> []) by (subst dropp; intros E; apply (f_equal (@length N)) in E; rewrite skipn_length in E; cbn in E; lia).
+    clear Ekp Edp.
+    assert (Hnd2 : NoDup (i :: ps ++ concat cs)) by (apply NoDup_app_r in Hnd; exact Hnd).
+    apply NoDup_cons_iff in Hnd2 as [Hi_rest Hnd3].
+    assert (Hps_nd : NoDup ps) by (apply NoDup_app_l in Hnd3; exact Hnd3).
+    remember (last (i :: keepp) 0) as q eqn:Eqd.
+    exists (rev dropp ++ fl).
+    assert (Hcase : (keepp = [] /\ q = i) \/ exists p1, keepp = p1 ++ [q]).
+    { rewrite Eqd. destruct keepp as [|x kp] eqn:Ek; [left; split; reflexivity|right].
+      destruct (@exists_last _ (x :: kp)) as [p1 [z Ez]]; [discriminate|]. exists p1. rewrite Ez.
+      change (last (i :: p1 ++ [z]) 0) with (last ((i :: p1) ++ [z]) 0). rewrite last_last. reflexivity. }
+    assert (Hq0 : q <> 0).
+    { destruct Hcase as [[_ ->]|[p1 Ep]]; [apply slot_some_lt in Hs; tauto|].
+      assert (Hin : In q ps) by (rewrite Eps, Ep; apply in_or_app; left; apply in_or_app; right; left; reflexivity).
+      destruct (linkedp_kinds _ _ _ _ Hl Hin) as [H|[n2 H]]; apply slot_some_lt in H; tauto. }
+    assert (Hq_fl : ~ In q fl).
+    { intros H. apply (nodup_app_disj _ _ q Hnd H). destruct Hcase as [[_ ->]|[p1 Ep]]; [left; reflexivity|].
+      right. apply in_or_app. left. rewrite Eps, Ep. apply in_or_app. left. apply in_or_app. right. left. reflexivity. }
+    assert (Hq_cs : ~ In q (concat cs)).
+    { intros H. destruct Hcase as [[_ Eq]|[p1 Ep]].
+      - rewrite Eq in H. apply Hi_rest. apply in_or_app. right. exact H.
+      - apply (nodup_app_disj _ _ q Hnd3); [rewrite Eps, Ep; apply in_or_app; left; apply in_or_app; right; left; reflexivity|exact H]. }
+    set (d1 := upd_slots d (free_head d) q RSize).
+    change (set_slot d q RSize) with d1. clear Eqd.
+    (* the kept part is a chain again, the dropped part hangs loose *)
+    assert (Hparts : chain_wf d1 (i :: keepp) /\ linkedp d1 (hd 0 dropp) dropp).
+    { destruct Hcase as [[Ek Eq]|[p1 Ep]].
+      - rewrite Ek in *. cbn [app] in Eps. subst ps. subst q. split.
+        + left. exists i. repeat split; [unfold d1; eapply slot_at_upd_eq; exact Hs|]. apply memN_false. intros Hin.
+          apply targets_shrink in Hin; [|reflexivity]. exact (head_not_target d fl ((i :: dropp) :: cs) i nx Hcs Hfl Hp Hs Hin).
+        + destruct (linkedp_hd _ _ _ Hl) as [r Er]. rewrite Er. cbn [hd]. rewrite <- Er. unfold d1. apply linkedp_upd; [exact Hq0|exact Hl|].
+          intros Hin. apply Hi_rest. apply in_or_app. left. exact Hin.
+      - rewrite Ep in Eps. rewrite <- app_assoc in Eps. cbn [app] in Eps.
+        assert (Hl2 : linkedp d nx (p1 ++ q :: dropp)) by (rewrite <- Eps; exact Hl).
+        assert (Hnd4 : NoDup (p1 ++ q :: dropp)) by (rewrite <- Eps; exact Hps_nd).
+        destruct (linkedp_cut d (free_head d) p1 nx q dropp Hq0 Hl2 Hdrop Hnd4) as [H1 H2]. split; [|exact H2].
+        right. exists i, nx, (p1 ++ [q]). rewrite Ep. repeat split; [|exact H1].
+        unfold d1. rewrite slot_at_upd_neq; [exact Hs|exact Hq0|]. intros ->. apply Hi_rest. apply in_or_app. left. rewrite Eps. apply in_or_app. right. left. reflexivity. }
+    destruct Hparts as [Hkeep Hloose].
+    apply (free_partsP dropp d1 fl (hd 0 dropp) ((i :: keepp) :: cs)).
+    + unfold d1. cbn [filled slots upd_slots]. rewrite set_nth_length. exact Hf.
+    + unfold d1. cbn [free_head upd_slots]. apply linkedf_upd; assumption.
+    + exact Hloose.
+    + constructor; [exact Hkeep|]. rewrite Forall_forall in *. intros c' Hc'. unfold d1. apply chain_wf_upd_gen; [exact Hq0|apply Hcs1; exact Hc'| |].
+      * intros H. apply Hq_cs. apply in_concat. exists c'. split; assumption.
+      * intros j -> Hj. apply targets_shrink in Hj; [|reflexivity]. destruct (single_chain _ _ (Hcs1 _ Hc')) as [_ Hnt]. exact (Hnt Hj).
+    + unfold d1. rewrite indices_upd. eapply Permutation_trans; [|exact Hp]. cbn [concat]. rewrite Eps.
+      apply Permutation_app_head.
+      replace ((i :: keepp ++ dropp) ++ concat cs) with ((i :: keepp) ++ dropp ++ concat cs) by (cbn [app]; rewrite <- app_assoc; reflexivity).
+      apply Permutation_app_swap_app.
+Qed.
+
 (* ---- every table reachable by storing and removing values is partitioned ---- *)
 Lemma remove_nth_perm {A} (l : list A) : forall j c, nth_error l j = Some c -> Permutation l (c :: remove_nth j l).
 Proof.
@@ -408,12 +506,22 @@ Qed.
 
 Lemma astep_inv st o : (exists fl, TInvP (fst st) fl (snd st)) -> exists fl, TInvP (fst (astep st o)) fl (snd (astep st o)).
 Proof.
-  destruct st as [d live]. cbn [fst snd]. intros [fl HP]. destruct o as [k|j]; cbn [astep].
+  destruct st as [d live]. cbn [fst snd]. intros [fl HP]. destruct o as [k|j|j k]; cbn [astep].
   - pose proof (alloc_chain_inv (S k) d fl live (le_n_S _ _ (Nat.le_0_l k)) HP) as H.
     destruct (alloc_chain (S k) d) as [d' l]. destruct H as [fl' [H _]]. exists fl'. cbn [fst snd].
     eapply tinvp_perm; [apply Permutation_cons_append|exact H].
   - destruct (nth_error live j) as [c|] eqn:E; [|exists fl; exact HP].
     cbn [fst snd]. exists (rev c ++ fl). apply free_chain_inv. eapply tinvp_perm; [apply remove_nth_perm; exact E|exact HP].
+  - destruct (nth_error live j) as [c|] eqn:E; [|exists fl; exact HP].
+    assert (Hpm : Permutation live (c :: remove_nth j live)) by (apply remove_nth_perm; exact E).
+    pose proof (areplace_inv d fl c (remove_nth j live) k (tinvp_perm _ _ _ _ Hpm HP)) as H.
+    destruct (areplace d c k) as [d' c']. destruct H as [fl' H]. cbn [fst snd]. exists fl'.
+    eapply tinvp_perm; [|exact H]. apply Permutation_sym.
+    assert (Hsplit : Permutation (firstn j live ++ c' :: skipn (S j) live) (c' :: firstn j live ++ skipn (S j) live)) by (apply Permutation_sym; apply Permutation_middle).
+    eapply Permutation_trans; [exact Hsplit|]. apply perm_skip.
+    assert (Er : remove_nth j live = firstn j live ++ skipn (S j) live).
+    { clear. revert live. induction j as [|j IH]; intros [|x l]; cbn; try reflexivity. rewrite IH. reflexivity. }
+    rewrite Er. reflexivity.
 Qed.
 
 Lemma empty_inv : TInvP empty_table [] [].
